@@ -95,6 +95,12 @@ func c06Years(c *ctx) {
 				// one start month of every tenth year also moves by a Metonic cycle and two (235, 470 months), each
 				// compared with the same move made one month at a time
 				nsAll = append(append([]int{}, ns...), 235, -235, 470, -470)
+				if y > 2600 {
+					nsAll = append(nsAll, -30000)
+				}
+				if y < 7300 {
+					nsAll = append(nsAll, 30000)
+				}
 			}
 			for _, n := range nsAll {
 				if !wide && (n > 13 || n < -13 || n == 12 || n == -12) && n < 200 && n > -200 {
@@ -129,6 +135,14 @@ func c06Years(c *ctx) {
 						step := 1
 						if n < 0 {
 							step = -1
+						}
+						if n > 5000 || n < -5000 {
+							// thousands of months: the same move in two halves (each far shorter) instead of one by one
+							it = it.Next(n / 2)
+							if it != nil {
+								it = it.Next(n - n/2)
+							}
+							return
 						}
 						for i := 0; i != n && it != nil; i += step {
 							it = it.Next(step)
